@@ -47,7 +47,7 @@ MAT_SPECIAL = {
     "m3.transform_vector": "M3 V3", "m3.transform_point": "M3 P3",
     "m4.transform_vector": "M4 V3", "m4.transform_point": "M4 P3",
     "m3.concat2": "M3 M3", "m3.concat": "M3 M3", "m4.concat": "M4 M4",
-    "m3.concat_self2": "M3 M3", "m4.concat_self": "M4 M4",
+    "m3.concat_self2": "M3 M3", "m4.concat_self": "M4 M4", "m3.concat_self": "M3 M3",
     "m3.inverse_transform2": "M3", "m3.inverse_transform": "M3", "m4.inverse_transform": "M4",
     "m3.inverse_transform_vector2": "M3 V2", "m3.inverse_transform_vector": "M3 V3",
     "m4.inverse_transform_vector": "M4 V3",
